@@ -65,6 +65,25 @@ func runMain(args []string) int {
 			ov[filepath.Join(repoPkgDir, p[0])] = b
 		}
 	}
+	if os.Getenv("VSYM_FORKSTAT") != "" {
+		forkStat = map[string]int{}
+		defer func() {
+			type kv struct {
+				k string
+				v int
+			}
+			var l []kv
+			for k, v := range forkStat {
+				l = append(l, kv{k, v})
+			}
+			sort.Slice(l, func(i, j int) bool { return l[i].v > l[j].v })
+			for i, e := range l {
+				if i < 15 {
+					fmt.Printf("forks %8d  %s\n", e.v, e.k)
+				}
+			}
+		}()
+	}
 	prog, err := loadProgram(ov)
 	if err != nil {
 		fmt.Println(err)
